@@ -102,7 +102,7 @@ func coreFrags() (map[string]*Fragment, []string) {
 
 // smallFrags is the reduced alphabet used by probe-heavy checks.
 func smallFrags() (map[string]*Fragment, []string) {
-	return mergeFrags(CoreFragments(), MultiKeyFragments()), []string{"fa", "fb", "fc", "fd", "fg", "mk4", "mk5"}
+	return mergeFrags(CoreFragments(), MultiKeyFragments()), []string{"fa", "fb", "fc", "fd", "fg", "fm", "mk4", "mk5"}
 }
 
 // configure fills an E1 for the property.
